@@ -774,6 +774,12 @@ archive_write_set_format_zip(struct archive *_a)
 }
 
 static int
+fits_uint32(int64_t v)
+{
+	return (v >= 0 && v <= 0xffffffffLL);
+}
+
+static int
 is_all_ascii(const char *p)
 {
 	const unsigned char *pp = (const unsigned char *)p;
@@ -1192,6 +1198,17 @@ archive_write_zip_header(struct archive_write *a, struct archive_entry *entry)
 
 	/* ux Unix extra data, length 11, version 1 */
 	if (archive_entry_uid_is_set(entry) || archive_entry_gid_is_set(entry)) {
+		/* Only the low 32 bits of either are stored. */
+		if (archive_entry_uid(entry) > 0xffffffffLL) {
+			archive_set_error(&a->archive, ERANGE,
+			    "Numeric user ID too large");
+			ret2 = ARCHIVE_WARN;
+		}
+		if (archive_entry_gid(entry) > 0xffffffffLL) {
+			archive_set_error(&a->archive, ERANGE,
+			    "Numeric group ID too large");
+			ret2 = ARCHIVE_WARN;
+		}
 		/* TODO: If uid < 64k, use 2 bytes, ditto for gid. */
 		memcpy(e, "ux\013\000\001", 5);
 		e += 5;
@@ -1249,6 +1266,18 @@ archive_write_zip_header(struct archive_write *a, struct archive_entry *entry)
 	    || archive_entry_atime_is_set(entry)
 	    || archive_entry_ctime_is_set(entry)) {
 		unsigned char *ut = e;
+
+		/* Only the low 32 bits of each are stored. */
+		if ((archive_entry_mtime_is_set(entry)
+			&& !fits_uint32(archive_entry_mtime(entry)))
+		    || (archive_entry_atime_is_set(entry)
+			&& !fits_uint32(archive_entry_atime(entry)))
+		    || (archive_entry_ctime_is_set(entry)
+			&& !fits_uint32(archive_entry_ctime(entry)))) {
+			archive_set_error(&a->archive, ERANGE,
+			    "File time out of range");
+			ret2 = ARCHIVE_WARN;
+		}
 		memcpy(e, "UT\000\000", 4);
 		e += 4;
 		*e++ = (archive_entry_mtime_is_set(entry) ? 1 : 0)
